@@ -775,3 +775,61 @@ func (fi *FuncInfo) PathFromEdgePruned(pred, b *ssa.BasicBlock, target, barrier 
 	}
 	return nil
 }
+
+// PathAvoidingEdges is PathAvoiding with an additional filter on CFG edges
+// that must not be taken.
+func (fi *FuncInfo) PathAvoidingEdges(from ssa.Instruction, target, barrier func(ssa.Instruction) bool, skipEdge func(p, s *ssa.BasicBlock) bool) ssa.Instruction {
+	var start pathPoint
+	if from == nil {
+		start = pathPoint{fi.Fn.Blocks[0], 0}
+	} else {
+		start = pathPoint{from.Block(), fi.idx[from] + 1}
+	}
+	seen := map[*ssa.BasicBlock]bool{}
+	work := []pathPoint{start}
+	for len(work) > 0 {
+		pt := work[len(work)-1]
+		work = work[:len(work)-1]
+		blocked := false
+		for i := pt.i; i < len(pt.b.Instrs); i++ {
+			in := pt.b.Instrs[i]
+			if target(in) {
+				return in
+			}
+			if barrier != nil && barrier(in) {
+				blocked = true
+				break
+			}
+		}
+		if blocked {
+			continue
+		}
+		for _, s := range pt.b.Succs {
+			if skipEdge != nil && skipEdge(pt.b, s) {
+				continue
+			}
+			if !seen[s] {
+				seen[s] = true
+				work = append(work, pathPoint{s, 0})
+			}
+		}
+	}
+	return nil
+}
+
+// edgeWhere returns a predicate selecting the CFG edges on which the fact
+// (comparison op between a value matching mx and one matching my) holds.
+func (fi *FuncInfo) edgeWhere(op token.Token, mx, my func(ssa.Value) bool) func(p, s *ssa.BasicBlock) bool {
+	return func(p, s *ssa.BasicBlock) bool {
+		if len(p.Instrs) == 0 {
+			return false
+		}
+		ifi, ok := p.Instrs[len(p.Instrs)-1].(*ssa.If)
+		if !ok || len(p.Succs) != 2 || p.Succs[0] == p.Succs[1] {
+			return false
+		}
+		val := p.Succs[0] == s
+		cmp, ok := cmpOf(ifi.Cond, val)
+		return ok && cmp.match(op, mx, my)
+	}
+}
